@@ -168,8 +168,19 @@ def weave_function(fn, path, src, edits, counter, census, loops=None):
     for m in re.finditer(r'\b(__sync_\w+|__atomic_\w+|__c11_atomic_\w+|atomic_\w+)\s*\(', body_txt):
         if m.group(1) not in shim:
             raise WeaveError('%s: atomic operation %s has no interference shim (rt/verif_atomic_shim.h)' % (fn['name'], m.group(1)))
-    is_void = fn['type']['qualType'].startswith('void (')
-    ret_t = fn['type']['qualType'].split(' (')[0].strip()
+    qt = fn['type']['qualType'].strip()
+    # the parameter list is the last balanced parenthesis group
+    d, i = 0, len(qt) - 1
+    while i >= 0:
+        if qt[i] == ')':
+            d += 1
+        elif qt[i] == '(':
+            d -= 1
+            if d == 0:
+                break
+        i -= 1
+    ret_t = qt[:i].strip()
+    is_void = (ret_t == 'void')
     if '(' in ret_t or '[' in ret_t:
         raise WeaveError('%s: unsupported return type %s' % (fn['name'], ret_t))
     name = fn['name']
